@@ -378,6 +378,15 @@ theorem inv_applyOp {c c' : Clock} {t : Rat} (h : Inv c t) (o : Op)
       apply inv_notify
       exact { h.core with tempoWF := tempo_setTempo_wf c.tempo hv secs }
     · cases hs
+  | etempo v now =>
+    simp only [Clock.applyOp] at hs
+    split at hs
+    · rename_i hv
+      simp only [Option.some.injEq] at hs
+      subst hs
+      apply inv_notify
+      exact { h.core with tempoWF := ⟨hv, rfl⟩ }
+    · cases hs
   | stop =>
     simp only [Clock.applyOp, Option.some.injEq] at hs
     subst hs
